@@ -14,7 +14,8 @@
 (*   [d |-> "modify", map |-> <<[k |-> addr, v |-> <<addr..>>]..>>]        *)
 (*   [d |-> "reroute", c |-> ..]                                           *)
 (* An address is [l, d, v]: local part, domain, SPELLING VARIANT; a match  *)
-(* rule with l = "" is a domain rule; l = d = "" is the null sender.       *)
+(* rule with l = "" is a domain rule; l = d = "" is the null sender; in a  *)
+(* rewrite map d = "" is a bare local part (alias key / domain-less value). *)
 (*                                                                         *)
 (* Part 1  Norm, the lookup-key equivalence (spelling does not matter).    *)
 (* Part 2  Load(cfg): the documented load-time rules.                      *)
@@ -50,13 +51,14 @@ CONSTANTS Locals, Doms,      \* alphabet of the match rules / tables / rewrite m
           MaxDefects,        \* defect budget (missing default, undecided block, mixed level, reject+deliver_to)
           DefectOdds,        \* one configuration in DefectOdds+1 starts with that budget, the others with 0
           Salts,             \* set of spelling salts for the envelope sweep
+          BareMaps,          \* rewrite maps may use local-part keys and domain-less values
           PrintExpected      \* rows carry the expected routing (Rule) of every envelope
 
 (***************************************************************************)
 (* Part 1: spelling and Norm                                               *)
 (***************************************************************************)
 VOrder == <<"lower", "upper", "nfc", "nfd", "alabel", "ALABEL">>
-AsciiL == {"l2", "lx"}       \* local parts spelled in ASCII only
+AsciiL == {"l2", "l3", "lx"}       \* local parts spelled in ASCII only
 AsciiD == {"d2", "dx"}       \* domains that are not IDNs
 
 AsciiSp(v) == IF v \in {"upper", "ALABEL"} THEN "up" ELSE IF v = "nfc" THEN "ti" ELSE "lo"
@@ -160,12 +162,22 @@ IsSel(D, ns, I, a, i) ==
 SelSet(D, ns, I, a) == {i \in I : IsSel(D, ns, I, a, i)}
 
 (* rewriting as a relation (order-free) *)
-RwOne(D, map, a) == IF \E i \in 1..Len(map) : Norm(D, map[i].k) = Norm(D, a)
-                    THEN LET i == CHOOSE i \in 1..Len(map) :
-                                   /\ Norm(D, map[i].k) = Norm(D, a)
-                                   /\ \A j \in 1..(i - 1) : Norm(D, map[j].k) # Norm(D, a)
-                         IN map[i].v
-                    ELSE <<a>>
+(* replace_rcpt (docs/reference/modifiers/envelope.md): first the whole address is *)
+(* looked up; if there is no replacement the local part is looked up separately   *)
+(* and replaced while the domain part is kept.  A key / value with d = "" is a    *)
+(* bare local part; a bare value is completed with the (normalised) domain of the *)
+(* address being rewritten - of THIS address, whatever was rewritten before.      *)
+IsBare(x) == x.d = "" /\ x.l # ""
+Complete(D, x, a) == IF IsBare(x) THEN [l |-> x.l, d |-> a.d, v |-> IF Ace(D, a) THEN "alabel" ELSE "lower"]
+                     ELSE x
+RwOne(D, map, a) ==
+  LET F == {i \in 1..Len(map) : ~IsBare(map[i].k) /\ Norm(D, map[i].k) = Norm(D, a)}
+      B == {i \in 1..Len(map) : IsBare(map[i].k) /\ map[i].k.l = a.l}
+  IN IF F # {} THEN map[CHOOSE i \in F : \A j \in F : i <= j].v
+     ELSE IF B # {} /\ ~IsNull(a)
+       THEN LET v == map[CHOOSE i \in B : \A j \in B : i <= j].v
+            IN [j \in 1..Len(v) |-> Complete(D, v[j], a)]
+     ELSE <<a>>
 RwSet(D, mods, as) ==
   FoldLeft(LAMBDA acc, m : UNION {ToSet(RwOne(D, m.map, a)) : a \in acc}, as, mods)
 
@@ -375,11 +387,15 @@ Keys == {Addr(l, d, "lower") : l \in Locals, d \in Doms}       \* table keys are
 (* rule lists / key lists / rewrite values are filled element by element *)
 KeySeq == SetToSeq(Keys)
 KeyRank(k) == CHOOSE i \in 1..Len(KeySeq) : KeySeq[i] = k
+BareKeys == IF BareMaps THEN {Addr(l, "", "lower") : l \in Locals} ELSE {}    \* `entry alias ...`
+MapKeySeq == SetToSeq(Keys \cup BareKeys)
+MapKeyRank(k) == CHOOSE i \in 1..Len(MapKeySeq) : MapKeySeq[i] = k
 HasArgs(kind) == kind \in {"source", "destination", "source_in", "destination_in"}
 
 Frame(kind, lvl, depth, need) ==
   [kind |-> kind, args |-> <<>>, need |-> need, lvl |-> lvl, mode |-> "new", c |-> <<>>,
-   depth |-> depth, nblk |-> 0, hasDef |-> FALSE, dec |-> "none", ndel |-> 0, nrr |-> 0, mneed |-> 0]
+   depth |-> depth, nblk |-> 0, hasDef |-> FALSE, dec |-> "none", ndel |-> 0, nrr |-> 0, mneed |-> 0,
+   mbare |-> FALSE]
 
 Top == stack[Len(stack)]
 SetTop(f) == stack' = [stack EXCEPT ![Len(stack)] = f]
@@ -402,17 +418,18 @@ G_Modify ==
   /\ Ready /\ Top.mode = "new" /\ nmod < MaxMod
   /\ \/ Top.c = <<>>
      \/ /\ Len(Top.c) = 1 /\ Top.c[1].d = "modify" /\ Len(Top.c[1].map) < MaxEntries
-  /\ \E k \in Keys, n \in 1..MaxVals :
-       /\ Top.c # <<>> => KeyRank(k) > KeyRank(Top.c[1].map[Len(Top.c[1].map)].k)
+  /\ \E k \in Keys \cup BareKeys, n \in 1..MaxVals, bare \in BOOLEAN :
+       /\ bare => IsBare(k) /\ n <= Cardinality(BareKeys)   \* domain-less values only under a local-part key
+       /\ Top.c # <<>> => MapKeyRank(k) > MapKeyRank(Top.c[1].map[Len(Top.c[1].map)].k)
        /\ SetTop([Top EXCEPT !.c = <<[d |-> "modify",
                                       map |-> (IF Top.c = <<>> THEN <<>> ELSE Top.c[1].map)
                                               \o <<[k |-> k, v |-> <<>>]>>]>>,
-                             !.mneed = n])
+                             !.mneed = n, !.mbare = bare])
   /\ nmod' = IF Top.c = <<>> THEN nmod + 1 ELSE nmod
   /\ UNCHANGED <<cfg, phase, budget, nopen, salt>>
 G_ModVal ==
   /\ Building /\ Top.mneed > 0
-  /\ \E x \in CanonAddrs(RuleVars) :
+  /\ \E x \in IF Top.mbare THEN BareKeys ELSE CanonAddrs(RuleVars) :
        LET m == Top.c[1].map
            e == m[Len(m)]
        IN /\ \A i \in 1..Len(e.v) : e.v[i] # x
